@@ -1,19 +1,20 @@
-(* C22 — Numscript sends move exactly the requested amount.  Statements only; proofs in Machine/SemProofs.v.
-   [run] (Machine/Sem.v) is the executable semantics of compile + execute on the default machine runtime; its
-   equality with compiler.Compile + vm.Machine is what the tie `ns` checks on every run. *)
+(* C22 — Numscript sends move exactly the requested amount.  Statements only; proofs in Machine/SemProofs.v,
+   BalProofs.v, EnvProofs.v, RunProofs.v.  [run] (Machine/Sem.v) is the executable semantics of compile + execute on
+   the default machine runtime (as repaired by fixes/01..03); its equality with compiler.Compile + vm.Machine is what
+   the tie `ns` checks on every run. *)
 From Coq Require Import List ZArith QArith String Bool.
-From LV Require Import Machine.Syntax Machine.Allot Machine.Lex Machine.Sem Machine.SemProofs.
+From LV Require Import Machine.Syntax Machine.Allot Machine.Lex Machine.Sem Machine.SemProofs Machine.BalProofs Machine.RunProofs.
 Import ListNotations.
 Open Scope Z_scope.
 Open Scope string_scope.
 
 (* For EVERY program, variables and store: if the run succeeds, there is an environment e (the resolved variables)
    such that the i-th statement and the i-th list of postings satisfy [stmt_guarantee]:
-   - `send M (...)`: M evaluates to [A x]; every posting is in asset A (the asset of the statement) with a
-     non-negative amount; 0 <= Σ postings <= x; and Σ postings = x when the destination contains no `kept`
+   - `send M (...)`: M evaluates to [A x]; every posting is in asset A (the statement's asset, a valid asset) with a
+     non-negative amount and valid addresses; 0 <= Σ postings <= x; Σ postings = x when the destination has no `kept`
      (`kept` portions produce no posting: they are the only way the sum can be below x);
-   - `send [A *] (...)`: the postings are all in the asset of the funding f the sources provided, non-negative,
-     Σ <= total f, = total f without `kept`; f is in asset A when no source has an `allowing overdraft up to` clause;
+   - `send [A *] (...)`: the sources provide a funding f in asset A; the postings are in A, Σ <= total f, = total f
+     without `kept`;
    - any other statement produces no posting.
    No bound on program size, nesting depth, amounts or number of accounts. *)
 Theorem C22_send : forall p given s r, run p given s = Ok r ->
@@ -21,42 +22,43 @@ Theorem C22_send : forall p given s r, run p given s = Ok r ->
 Proof. exact run_guarantee. Qed.
 Print Assumptions C22_send.
 
-(* per send statement, at any machine state *)
-Theorem C22_send_statement : forall te e m vs d b b' ps,
-  exec_send e m vs d b = Ok (b', ps) -> chk_vsource te vs = true ->
-  exists A x, eval_mon e m = Ok (A, Some x) /\ send_post_spec A x ps /\
+(* The tracked balances equal the initial balances plus the postings minus what `save` set aside: for every tracked
+   (account, asset) pair k with account <> world (the machine never credits/repays world),
+   final(k) = initial(k) + Σ postings to k - Σ postings from k - saved(k); the initial value is the store's balance. *)
+Theorem C22_balances : forall p given s r, run p given s = Ok r ->
+  forall k v, fst k <> "world" -> bget (rinit r) k = Some v ->
+  v = store_balance s k /\
+  bget (rbal r) k = Some (v + effect (fst k) (snd k) (all_postings r) - saved_for k (rsaved r)).
+Proof. intros p given s r H k v Hw Hi. split; [apply (run_init_store _ _ _ _ H _ _ Hi)|apply (run_balances _ _ _ _ H _ _ Hw Hi)]. Qed.
+Print Assumptions C22_balances.
+
+(* per send statement, at any machine state, for any predicate P on accounts that the statement's account
+   expressions satisfy *)
+Theorem C22_send_statement : forall P te e m vs d b b' ps,
+  exec_send e m vs d b = Ok (b', ps) -> chk_vsource te vs = true -> vsrc_accs P e vs -> dest_accs P e d ->
+  exists A x, eval_mon e m = Ok (A, Some x) /\ send_post_spec P A x ps /\
               (chk_dest te d = true -> no_kept d = true -> post_sum ps = x).
 Proof. exact exec_send_spec. Qed.
 Print Assumptions C22_send_statement.
 
-Theorem C22_send_all_statement : forall te e a s d b b' ps,
-  exec_send_all e a s d b = Ok (b', ps) ->
-  exists f b1, eval_source e (eval_asset e a) s b = Ok (f, b1) /\ 0 <= total f /\
-               send_post_spec (fasset f) (total f) ps /\
-               (chk_dest te d = true -> no_kept d = true -> post_sum ps = total f) /\
-               (src_plain s = true -> fasset f = eval_asset e a).
+Theorem C22_send_all_statement : forall P te e a s d b b' ps,
+  exec_send_all e a s d b = Ok (b', ps) -> src_accs P e s -> dest_accs P e d ->
+  exists f b1, eval_source e (eval_asset e a) s b = Ok (f, b1) /\ 0 <= total f /\ fasset f = eval_asset e a /\
+               send_post_spec P (eval_asset e a) (total f) ps /\
+               (chk_dest te d = true -> no_kept d = true -> post_sum ps = total f).
 Proof. exact exec_send_all_spec. Qed.
 Print Assumptions C22_send_all_statement.
 
-(* The full statement "all postings of `send [A *]` are in asset A" is FALSE of the unchanged code: an
-   `allowing overdraft up to [B n]` clause in another asset B makes TAKE_ALL withdraw B, and nothing compares the
-   funding's asset with A when everything is sent (no TAKE against the statement's monetary).
-   Witness (replayed on the real compiler + VM: known finding KF-C22-sendall-foreign-overdraft-asset):
-     vars { monetary $b = balance(@a, EUR) }
-     send [USD *] ( source = @a allowing overdraft up to [EUR 5]  destination = @b )       with a: EUR 7 *)
-Definition c22_witness : program :=
-  {| pvars := [ {| vty := TMonetary; vname := "b"; vorigin := OBalance (AccLit "a") (AssetLit "EUR") |} ];
-     pstmts := [ SendAll (AssetLit "USD") (SAccount (AccLit "a") (OdUpTo (MonLit (AssetLit "EUR") 5))) (DAccount (AccLit "b")) ] |}.
-Definition c22_store : store := {| st_bal := [(("a", "EUR"), 7); (("a", "USD"), 10)]; st_meta := [] |}.
-
-Theorem C22_refuted_sendall_asset :
-  exists r, run c22_witness [] c22_store = Ok r /\
-            all_postings r = [ {| psrc := "a"; pdst := "b"; passet := "EUR"; pamt := 12 |} ].
-Proof. eexists. split; vm_compute; reflexivity. Qed.
-Print Assumptions C22_refuted_sendall_asset.
+(* regression of KF-C22-sendall-foreign-overdraft-asset (fixes/03): the script that used to emit EUR postings for
+   `send [USD *]` is now an invalid-script error *)
+Example C22_sendall_foreign_overdraft_rejected :
+  run {| pvars := [ {| vty := TMonetary; vname := "b"; vorigin := OBalance (AccLit "a") (AssetLit "EUR") |} ];
+         pstmts := [ SendAll (AssetLit "USD") (SAccount (AccLit "a") (OdUpTo (MonLit (AssetLit "EUR") 5))) (DAccount (AccLit "b")) ] |}
+      [] {| st_bal := [(("a", "EUR"), 7); (("a", "USD"), 10)]; st_meta := [] |} = Err EInvalidScript.
+Proof. vm_compute. reflexivity. Qed.
 
 (* non-vacuity: an allotment destination with `kept`, an in-order source with a capped sub-source and world
-   as fallback; 100 sent, 25 kept (repaid), postings sum to 75 *)
+   as fallback; 100 sent, 25 kept (repaid), postings sum to 75; tracked balance of a: 50 -> 20 *)
 Example C22_example :
   let p := {| pvars := [];
               pstmts := [ Send (MonLit (AssetLit "USD") 100)
@@ -66,7 +68,7 @@ Example C22_example :
                                        (DACons (PConst (1#4)) (To (DAccount (AccLit "b")))
                                        (DACons PRemaining (To (DAccount (AccLit "c"))) DANil)))) ] |} in
   match run p [] {| st_bal := [(("a", "USD"), 50)]; st_meta := [] |} with
-  | Ok r => map (fun q => (psrc q, pdst q, pamt q)) (all_postings r)
-  | _ => []
-  end = [("a", "b", 25); ("a", "c", 5); ("world", "c", 45)].
+  | Ok r => (map (fun q => (psrc q, pdst q, pamt q)) (all_postings r), rbal r)
+  | _ => ([], [])
+  end = ([("a", "b", 25); ("a", "c", 5); ("world", "c", 45)], [(("a", "USD"), 20)]).
 Proof. vm_compute. reflexivity. Qed.
